@@ -102,6 +102,16 @@ def serve(req, served, reference, findings, stats, case):
     obs["result"] = raw_image(out)
     stats["requests served"] += 1
     ref = reference.setdefault(req, obs)
+    # the order in which the caller happens to mention the formats is not part of the request: requests
+    # that are the same mapping must produce the same text
+    key = structural_key(text, formats, backend)
+    for other, oref in reference.items():
+        if other != req and structural_key(*MENU[other]) == key:
+            for k in ("text-c", "text-llvm"):
+                if obs[k] != oref[k]:
+                    findings.append(_f("mention-order-dependent", f"requests {req} and {other} are the same assignment "
+                                       f"and formats mentioned in a different order, but their {k} differs", case,
+                                       observable=k.split("-")[0]))
     for k in obs:
         if obs[k] != ref[k]:
             findings.append(_f("history-dependent", f"request {req} ({text}, {formats}): {k} differs from what the "
